@@ -61,7 +61,7 @@ theorem eval_shamtw (h : Ctx 64 8 ρ s w) :
 
 theorem eval_maskedShamtw (h : Ctx 64 8 ρ s w) (a : Nat) :
     trunc 4 ((Tools.maskBits (regLoad .rs2 ⟨a, w⟩ 4) 5 4).eval ρ) = s.get (rs2 w) % 32 := by
-  rw [eval_maskBits _ _ _ _ (by decide) (by decide) (by decide) (by decide), h.eval_rs2']
+  rw [eval_maskBits _ _ _ _ (by decide), h.eval_rs2']
   unfold Spec.mask
   simp only [trunc4]
   omega
